@@ -36,7 +36,7 @@ def control(props, tier):
             try:
                 out = os.path.join(d, 'out'); os.makedirs(out)
                 env = dict(os.environ, VERIF_REPO=REPO, VERIF_OUT=out, VERIF_DIR=VERIF)
-                r = subprocess.run([os.environ.get('VERIF_BIN') or os.path.join(VERIF, 'bin', 'gqlcheck'), 'check', props, tier], capture_output=True, text=True, env=env, cwd=VERIF)
+                r = subprocess.run([os.environ.get('VERIF_BIN') or os.path.join(VERIF, 'bin', 'gqlcheck'), 'check', props, tier], capture_output=True, text=True, errors='replace', env=env, cwd=VERIF)
                 viol = [l for l in (r.stdout + r.stderr).splitlines() if l.startswith(('VIOLATED', 'UNDECIDED', 'ANALYSIS-FAILURE'))]
                 _controls[k] = '' if r.returncode == 0 else ('control failed: `check %s %s` alarms on the unchanged tree: %s' % (props, tier, ' || '.join(l[:200] for l in viol[:3])))
                 print('CONTROL %s %s: %s' % (props, tier, 'silent' if r.returncode == 0 else 'ALARM'), flush=True)
@@ -66,7 +66,7 @@ def run_variant(path, kind):
                 return (path, False, 'mutant does not compile: ' + b.stderr[-500:])
         env = dict(os.environ, VERIF_REPO=repo, VERIF_OUT=out, VERIF_DIR=VERIF)
         t0 = time.time()
-        r = subprocess.run([os.environ.get('VERIF_BIN') or os.path.join(VERIF, 'bin', 'gqlcheck'), 'check', props, tier], capture_output=True, text=True, env=env, cwd=VERIF)
+        r = subprocess.run([os.environ.get('VERIF_BIN') or os.path.join(VERIF, 'bin', 'gqlcheck'), 'check', props, tier], capture_output=True, text=True, errors='replace', env=env, cwd=VERIF)
         dt = time.time() - t0
         outp = r.stdout + r.stderr
         if kind == 'mutants':
